@@ -823,8 +823,12 @@ func (it *Interp) mapOrder(n int) []int {
 	it.rep.MapRanges++
 	switch it.cfg.MapOrder {
 	case "all":
-		// choose a permutation: insertion, reverse, and rotations
-		k := it.choose(n + 1)
+		// choose a permutation: insertion, reverse, and rotations (two entries: insertion and reverse)
+		nch := n + 1
+		if n == 2 {
+			nch = 2
+		}
+		k := it.choose(nch)
 		switch {
 		case k == 0:
 		case k == 1:
